@@ -10,7 +10,7 @@ PROPERTY = "C09"
 LEVEL = "exploration"
 RULE = ("for each of 17 cache kinds (built by their documented constructors/factories): seeded successful non-volatile "
         "queries of the C01 vocabulary (links, sub-evaluations, namespaces, file names) and pairs (query, extension of one "
-        "of its prefixes). Per pair: cold evaluation, immediate re-evaluation, contains/get, evaluation of the extension; the "
+        "of its prefixes). Per pair: cold evaluation, immediate re-evaluation, contains/get, evaluation of the extension, the query again; the "
         "call log of each evaluation must equal the simulated one. Evaluations = evaluations whose call log was compared; "
         "non-trivial = the simulation predicts fewer executions than a cache-less evaluation; distinct = distinct "
         "(kind, query, extension).")
@@ -46,7 +46,7 @@ def run_pair(env, kind, q, ext, scratch, viol, stats):
     rec = Recorder(built.cache)
     cached = set()
     admits = lambda attrs: cachecfg.admits(kind, attrs)
-    plan = [("cold", q), ("repeat", q), ("extension", ext)]
+    plan = [("cold", q), ("repeat", q), ("extension", ext), ("again_after_extension", q)]
     canon = parse(q).encode()
     for phase, text in plan:
         before = set(cached)
